@@ -72,9 +72,9 @@ func init() {
 	core.Register(&core.Prop{
 		ID: "C04", Level: "model_checking", Design: "§5 C04",
 		Run: func(c *core.Ctx) {
-			extra := 3
+			extra := 40
 			if !c.Quick() {
-				extra = 64
+				extra = 600
 			}
 			var cases []c04Case
 			for t := 0; t < dyn.NB; t++ {
